@@ -129,7 +129,8 @@ StepRaw(p, m, o) ==
                ELSE Decline(m)
       (* ---- Downloader.download / net.download / download_http / _download_http ---- *)
       [] m.pc = "dl.begin" ->
-           IF p.net = "nourl" THEN Raise(m, "DataError")
+           IF DropTableOnRewrite /\ f = "none" /\ fs.off # Absent THEN [m EXCEPT !.fs.off = Absent, !.fs.newer = FALSE]
+           ELSE IF p.net = "nourl" THEN Raise(m, "DataError")
            ELSE IF p.net = "offline" THEN Raise(m, "SystemSetupError")
            ELSE [m EXCEPT !.pc = "dl.attempt", !.att = 0]
       [] m.pc = "dl.attempt" ->      \* the request, then open(<target>.tmp, "wb")
@@ -172,8 +173,9 @@ StepRaw(p, m, o) ==
       [] m.pc = "dec.check" ->
            IF p.uDecl /\ ~DocSizeRight(p, m.dout) THEN Raise(m, "DataError")
            ELSE IF AtomicDecompress
-                THEN LET w == Rewritten(fs, m.dout)      \* the rename keeps the (old, for tar) mtime of the extracted file
-                     IN [m EXCEPT !.pc = "loop", !.fs = [w EXCEPT !.newer = (Kind(f) = "tar" /\ w.off # Absent)]]
+                THEN IF DropTableOnRewrite /\ fs.off # Absent THEN [m EXCEPT !.fs.off = Absent, !.fs.newer = FALSE]
+                     ELSE       \* the rename keeps the (old, for tar) mtime of the extracted file
+                          [m EXCEPT !.pc = "loop", !.fs.doc = m.dout, !.fs.newer = (Kind(f) = "tar" /\ fs.off # Absent)]
                 ELSE Goto(m, "loop")
       (* ---- create_file_offset_table / io.prepare_file_offset_table ---- *)
       [] m.pc = "off.check" ->
